@@ -87,33 +87,39 @@ theorem jthCombinationNoRepl_surj (n m : Nat) (w : List Nat) (hw : IsDecreasingC
 
 theorem constructWithCopies_range (cs : List Nat) (idx : Nat) (h : idx < countRemaining cs) :
     ∃ w, constructWithCopies cs.length cs.sum idx cs = .ok w ∧ IsMultisetPermutation cs w := by
-  sorry
+  exact constructWithCopies_range' cs idx h
 
 theorem constructWithCopies_inj (cs : List Nat) (i₁ i₂ : Nat)
     (h₁ : i₁ < countRemaining cs) (h₂ : i₂ < countRemaining cs)
     (h : constructWithCopies cs.length cs.sum i₁ cs = constructWithCopies cs.length cs.sum i₂ cs) : i₁ = i₂ := by
-  sorry
+  exact constructWithCopies_inj' cs i₁ i₂ h₁ h₂ h
 
 theorem constructWithCopies_surj (cs : List Nat) (w : List Nat) (hw : IsMultisetPermutation cs w) :
     ∃ idx, idx < countRemaining cs ∧ constructWithCopies cs.length cs.sum idx cs = .ok w := by
-  sorry
+  exact constructWithCopies_surj' cs w hw
 
 /-! ### prefixes of permutations with bounded repetitions (uniform `m` or per-element counters) -/
 
+-- `ha` is not needed: the model reads a missing counter as 0.
+set_option linter.unusedVariables false in
 theorem jthPrefix_range (q : Nat) (a : Avail) (firstN j : Nat) (ha : a.WF q) (hq : 0 < q ∨ firstN = 0)
     (hj : j < countPrefixes q a firstN) :
     ∃ w, jthPrefix q a firstN j = .ok (some w) ∧ IsBoundedPrefix q a firstN w := by
-  sorry
+  exact jthPrefix_range' q a firstN j hq hj
 
+-- `ha` is not needed: the model reads a missing counter as 0.
+set_option linter.unusedVariables false in
 theorem jthPrefix_inj (q : Nat) (a : Avail) (firstN j₁ j₂ : Nat) (ha : a.WF q)
     (h₁ : j₁ < countPrefixes q a firstN) (h₂ : j₂ < countPrefixes q a firstN)
     (h : jthPrefix q a firstN j₁ = jthPrefix q a firstN j₂) : j₁ = j₂ := by
-  sorry
+  exact jthPrefix_inj' q a firstN j₁ j₂ h₁ h₂ h
 
+-- `ha` is not needed: the model reads a missing counter as 0.
+set_option linter.unusedVariables false in
 theorem jthPrefix_surj (q : Nat) (a : Avail) (firstN : Nat) (ha : a.WF q) (w : List Nat)
     (hw : IsBoundedPrefix q a firstN w) :
     ∃ j, j < countPrefixes q a firstN ∧ jthPrefix q a firstN j = .ok (some w) := by
-  sorry
+  exact jthPrefix_surj' q a firstN w hw
 
 /-- Non-vacuity: concrete instances. -/
 example : jthPermutationPrefix 4 2 7 = .ok [3, 1] ∧ countPrefixes 3 (.uniform 2) 4 = 54
